@@ -17,7 +17,7 @@ from k1 import Unit
 #   take_until:       "as_written"  trigger_receiver::set_done destroys sourceOp_ (finding 2)
 #                     "fixed"       it destroys triggerOp_ (commit e46f32d)                 <- current tree
 MODEL_VARIANT = {
-    "stop_immediately": "fixed9",
+    "stop_immediately": "fixed",
     "take_until": "fixed",
 }
 # (development / mutation tests only: VERIF_C13_MODEL_VARIANT_SI / _TU override the constants)
